@@ -163,6 +163,8 @@ enum Seen {
         key: Key,
         /// parse of the printed form: (its printed form, its key)
         reparsed: Result<(String, Key), String>,
+        /// Display of each item of Path::components()
+        components: Vec<String>,
     },
 }
 
@@ -175,7 +177,8 @@ fn observe(text: &str, seed: &[u8]) -> Result<Seen, String> {
             let reparsed = printed.parse::<hdk::Path>().map_err(|e| format!("{e:#}")).map(|p2| {
                 (p2.to_string(), hdk::derive(seed, &p2).map(|k| k.secret()).map_err(|e| format!("{e:#}")))
             });
-            Seen::Accepted { printed, key, reparsed }
+            let components = p.components().map(|c| c.to_string()).collect();
+            Seen::Accepted { printed, key, reparsed, components }
         }
     })
 }
@@ -236,7 +239,7 @@ pub fn judge_path_text(text: &str, seed: &[u8], origin: &str, cls: &mut Classifi
             cls.unspecified(kind);
             match &seen {
                 Seen::Rejected(_) => cls.label(&format!("{origin}:unspecified:refused")),
-                Seen::Accepted { printed, key, reparsed } => {
+                Seen::Accepted { printed, key, reparsed, .. } => {
                     // "every accepted path prints back in that canonical form": an accepted '+' / zero-padded
                     // spelling must print the canonical text of the numbers it was read as
                     if matches!(kind, "leading-plus" | "leading-zeros") {
@@ -275,7 +278,13 @@ pub fn judge_path_text(text: &str, seed: &[u8], origin: &str, cls: &mut Classifi
                 Seen::Rejected(e) => {
                     return fail("accepted", format!("Err({e})"), format!("canonical path text {shown} with every index below 2^31 is refused"))
                 }
-                Seen::Accepted { printed, key, reparsed } => (printed, key, reparsed),
+                Seen::Accepted { printed, key, reparsed, components } => {
+                    let want: Vec<String> = steps.iter().map(|s| format!("{}{}", s.index, if s.hardened { "'" } else { "" })).collect();
+                    if components != want {
+                        return fail(format!("{want:?}"), format!("{components:?}"), format!("Path::components() of the accepted canonical path {shown}"));
+                    }
+                    (printed, key, reparsed)
+                }
             };
             assert_eq!(bip32::render(&steps), text, "harness: a text classified as canonical is the rendering of its steps");
             if printed != text {
